@@ -157,6 +157,17 @@ def run(rep, tier, seed, tr_errors):
                         bad.append((dict(cdc=cdc, points_per_decade=ppd, method="tr-nnls", scale=k), "Z x %.4g: gamma is not multiplied by the factor / tau changed" % k))
                     if not (np.allclose(t2, t0 / c, rtol=1e-12) and float(np.max(abs(g2 - g0))) <= 1e-6 * gm):
                         bad.append((dict(cdc=cdc, points_per_decade=ppd, method="tr-nnls", f_scale=c), "f x %.4g: tau is not divided by the factor / gamma changed" % c))
+                    # the reported peaks (with a non-default relative threshold) follow the same scalings, also for milliohm systems
+                    r3 = drt(f, 1e-4 * Z, method="tr-nnls", mode="real", lambda_value=1e-3)
+                    rep.evaluations += 1
+                    for thr in (0.1, 0.5):
+                        p0t, p0g = r0.get_peaks(threshold=thr)
+                        for (rv, kv, what) in ((r1, k, "Z x %.4g" % k), (r3, 1e-4, "Z x 1e-4")):
+                            pt_, pg_ = rv.get_peaks(threshold=thr)
+                            if len(pt_) != len(p0t) or not (np.allclose(pt_, p0t, rtol=1e-9) and np.allclose(pg_, kv * np.asarray(p0g), rtol=1e-5)):
+                                bad.append((dict(cdc=cdc, points_per_decade=ppd, method="tr-nnls", scale=kv, threshold=thr),
+                                            "%s: get_peaks(threshold=%g) reports %d peaks at %s instead of %d at %s with scaled heights" % (
+                                                what, thr, len(pt_), np.round(np.log10(pt_), 2).tolist() if len(pt_) else [], len(p0t), np.round(np.log10(p0t), 2).tolist())))
                 except Exception as e:  # noqa
                     bad.append((dict(cdc=cdc), "scaling run raised %s: %s" % (type(e).__name__, str(e)[:100])))
                 # m(RQ)fit
@@ -215,15 +226,20 @@ def run(rep, tier, seed, tr_errors):
                         rep.evaluations += 2
 
                         def sorted_pairs(r_):
+                            # the automatic model order may add terms whose weight is rounding noise (|R_k| ~ 1e-14 ohm) when the
+                            # input is perturbed in the last bit: only terms that carry resistance are compared, and to 1e-4
+                            # (the method itself recovers exact ladders to about 2e-5 on these windows)
                             t_, g_ = np.asarray(r_.time_constants), np.asarray(r_.gammas)
+                            keep = abs(g_) > 1e-6 * float(np.max(abs(g_)))
+                            t_, g_ = t_[keep], g_[keep]
                             o_ = np.argsort(t_)
                             return t_[o_], g_[o_]
                         t0, g0 = sorted_pairs(r)
                         t1, g1 = sorted_pairs(r1)
                         t2, g2 = sorted_pairs(r2)
-                        if len(t1) != len(t0) or not (np.allclose(t1, t0, rtol=1e-6) and np.allclose(g1, k * g0, rtol=1e-6, atol=1e-9 * k * float(np.max(abs(g0))))):
+                        if len(t1) != len(t0) or not (np.allclose(t1, t0, rtol=1e-4) and np.allclose(g1, k * g0, rtol=1e-4, atol=1e-6 * k * float(np.max(abs(g0))))):
                             bad.append((dict(desc, scale=k), "Loewner method: Z x %.4g does not multiply the gammas by the factor / changes the time constants" % k))
-                        if len(t2) != len(t0) or not (np.allclose(t2, t0 / c, rtol=1e-6) and np.allclose(g2, g0, rtol=1e-6, atol=1e-9 * float(np.max(abs(g0))))):
+                        if len(t2) != len(t0) or not (np.allclose(t2, t0 / c, rtol=1e-4) and np.allclose(g2, g0, rtol=1e-4, atol=1e-6 * float(np.max(abs(g0))))):
                             bad.append((dict(desc, f_scale=c), "Loewner method: f x %.4g does not divide the time constants by the factor / changes the gammas" % c))
                     except Exception as e:  # noqa
                         bad.append((desc, "Loewner scaling run raised %s: %s" % (type(e).__name__, str(e)[:100])))
